@@ -420,8 +420,13 @@ pub struct DropCase {
     pub left_node: usize,
     pub h_shape: Shape,
     pub h_data: Vec<Option<u8>>,
-    /// extras: 0 isolated vertex, 1 isolated vertex with data, 2 detached 2-vertex subtree
+    /// extras: 0 isolated vertex, 1 isolated vertex with data, 2 detached 2-vertex subtree,
+    /// 3 isolated vertex whose data was already read
     pub extras: Vec<u8>,
+    /// the id of the tree's last node was used before by a vertex (with an edge, no data) that was
+    /// collected: the tree is built on a recycled slot
+    #[serde(default)]
+    pub h_recycled: bool,
     /// node of h used as `right` (0 = the real root)
     pub right_node: usize,
 }
@@ -440,7 +445,16 @@ pub fn check_drop(acc: &mut Acc, c: &DropCase) {
     // the right graph: the tree on ids 1.., extras on the ids after it
     let h = c.h_shape.htree(&c.h_data);
     let ids: Vec<usize> = (1..=h.size()).collect();
-    let mut hg: Sodg<N> = crate::real::build_tree::<N>(&h, &ids, 64);
+    let mut hg: Sodg<N> = Sodg::empty(64);
+    if c.h_recycled {
+        let last = ids[h.size() - 1];
+        hg.add(last);
+        hg.add(40);
+        hg.bind(last, 40, lab(2));
+        hg.put(40, &dat(3));
+        let _ = hg.data(40); // collects both; id 40 stays absent, `last` is re-added by the tree
+    }
+    crate::real::build_tree_into(&mut hg, &h, &ids);
     let mut next = h.size() + 1;
     let mut present: BTreeSet<usize> = ids.iter().copied().collect();
     for e in &c.extras {
@@ -453,6 +467,13 @@ pub fn check_drop(acc: &mut Acc, c: &DropCase) {
             1 => {
                 hg.add(next);
                 hg.put(next, &dat(3));
+                present.insert(next);
+                next += 1;
+            }
+            3 => {
+                hg.add(next);
+                hg.put(next, &dat(1));
+                let _ = hg.data(next);
                 present.insert(next);
                 next += 1;
             }
@@ -532,11 +553,11 @@ pub fn run_c12(tier: &str) -> Outcome {
     let h_trees = trees(hmax, 120);
     // every combination (multiset) of up to 3 extras
     let mut extras: Vec<Vec<u8>> = vec![vec![]];
-    for a in 0..3u8 {
+    for a in 0..4u8 {
         extras.push(vec![a]);
-        for b in a..3 {
+        for b in a..4 {
             extras.push(vec![a, b]);
-            for c in b..3 {
+            for c in b..4 {
                 extras.push(vec![a, b, c]);
             }
         }
@@ -547,7 +568,9 @@ pub fn run_c12(tier: &str) -> Outcome {
             for (hs, hd) in &h_trees {
                 for ex in &extras {
                     for right_node in 0..hs.size() {
-                        cases.push(DropCase { g_shape: gs.clone(), left_node, h_shape: hs.clone(), h_data: hd.clone(), extras: ex.clone(), right_node });
+                        for h_recycled in [false, true] {
+                            cases.push(DropCase { g_shape: gs.clone(), left_node, h_shape: hs.clone(), h_data: hd.clone(), extras: ex.clone(), right_node, h_recycled });
+                        }
                     }
                 }
             }
@@ -565,7 +588,7 @@ pub fn run_c12(tier: &str) -> Outcome {
             machinery.push(format!("vacuous run: situation '{k}' never occurred"));
         }
     }
-    let rule = format!("every right graph = labelled tree of <= {hmax} vertices (every data placement) + every combination of up to 3 extras out of {{isolated vertex, isolated vertex with data, detached 2-vertex subtree}}, `right` = every node of the tree (so also roots that are not the graph's root), every left tree of <= {gmax} vertices and every `left`. Oracle: Ok iff the reference says every present vertex of the right graph is reachable from `right`; otherwise Err whose text names exactly the unreachable present vertices. distinct_nontrivial = distinct (left, right graph, left, right) cases");
+    let rule = format!("every right graph = labelled tree of <= {hmax} vertices (every data placement) + every combination of up to 3 extras out of {{isolated vertex, isolated vertex with data, isolated vertex whose data was read, detached 2-vertex subtree}}, the tree built on fresh slots and on a slot recycled from a collected vertex, `right` = every node of the tree (so also roots that are not the graph's root), every left tree of <= {gmax} vertices and every `left`. Oracle: Ok iff the reference says every present vertex of the right graph is reachable from `right`; otherwise Err whose text names exactly the unreachable present vertices. distinct_nontrivial = distinct (left, right graph, left, right) cases");
     super::outcome("C12", tier, "exploration", &rule, acc, true, json!({}), t0.elapsed().as_secs_f64(), vec!["the missed vertices are read from the ν<id> tokens after the word 'missed' in the error text; without such tokens the check only demands that every missed id occurs in the message".to_string()], machinery)
 }
 
